@@ -75,8 +75,8 @@ type Sched struct {
 	// enabled threads in canonical order and the running thread and returns an index into enabled. Used for single
 	// directed schedules (e.g. lock-step round robin with hundreds of threads), never by the explorer.
 	Policy func(enabled []int, cur int) int
-	abort    bool
-	fatal    string
+	abort  bool
+	fatal  string
 	// HB
 	lastWrite map[uintptr]acc
 	lastReads map[uintptr][]acc
@@ -744,10 +744,11 @@ var supportedOps = map[string]bool{"MOVQ": true, "MOVL": true, "XCHGL": true, "X
 	"DECL": true, "INCL": true, "ADDL": true, "SUBL": true, "XORL": true, "XORQ": true, "ANDL": true, "ORL": true,
 	"JNZ": true, "JNE": true, "JZ": true, "JE": true, "JEQ": true, "JMP": true, "PAUSE": true, "CALL": true, "RET": true,
 	"LOCK": true, "CMPXCHGL": true, "MFENCE": true, "NOP": true,
+	"BTL": true, "BTSL": true, "BTRL": true, "BTCL": true, "BTQ": true, "BTSQ": true, "BTRQ": true, "BTCQ": true,
 	"XADDL": true, "SHRL": true, "SHLL": true, "SHRQ": true, "SHLQ": true, "CMPB": true, "CMPW": true, "MOVW": true, "MOVB": true,
 	"MOVWLZX": true, "MOVBLZX": true, "MOVWQZX": true, "MOVBQZX": true, "MOVLQZX": true, "ADDQ": true, "SUBQ": true, "ANDQ": true, "ORQ": true,
 	"NOTL": true, "NEGL": true, "INCQ": true, "DECQ": true, "TESTB": true, "TESTW": true,
-	"JLT": true, "JGE": true, "JGT": true, "JLE": true, "JCS": true, "JLO": true, "JCC": true, "JHS": true, "JHI": true, "JLS": true}
+	"JC": true, "JNC": true, "JB": true, "JAE": true, "JA": true, "JBE": true, "JL": true, "JG": true, "JNL": true, "JNG": true, "JLT": true, "JGE": true, "JGT": true, "JLE": true, "JCS": true, "JLO": true, "JCC": true, "JHS": true, "JHI": true, "JLS": true}
 
 type CPU struct {
 	pc    int
@@ -966,6 +967,42 @@ func (p *Program) Run(frame []byte, globals map[string]uintptr) {
 			v := (-load(it.a[0], 4)) & 0xffffffff
 			store(it.a[0], 4, v)
 			c.zf = v == 0
+		case "BTL", "BTSL", "BTRL", "BTCL", "BTQ", "BTSQ", "BTRQ", "BTCQ":
+			// BTx bit, dst: CF = old bit; S sets, R resets, C complements it (a read-modify-write unless plain BT)
+			bitOp, m := it.a[0], it.a[1]
+			modifies := it.op[2] != 'L' && it.op[2] != 'Q'
+			if shared(m) {
+				if lockPrefix || !modifies {
+					if lockPrefix {
+						SyncOp(addrOf(m))
+					} else {
+						RelaxedRead(addrOf(m))
+					}
+				} else {
+					RelaxedRead(addrOf(m))
+				}
+			}
+			old := load(m, n)
+			if shared(m) && modifies && !lockPrefix {
+				c.phase = 1
+				Step(c.key()) // un-LOCKed read-modify-write: the store is a separate step
+				c.phase = 0
+				PlainLockWordWrite(addrOf(m))
+			}
+			bit := uint64(1) << (load(bitOp, 1) & uint64(8*n-1))
+			c.cf = old&bit != 0
+			if modifies {
+				v := old
+				switch it.op[2] {
+				case 'S':
+					v |= bit
+				case 'R':
+					v &^= bit
+				case 'C':
+					v ^= bit
+				}
+				store(m, n, v)
+			}
 		case "XADDL":
 			// XADDL reg, mem: tmp = mem; mem += reg; reg = tmp
 			r, m := it.a[0], it.a[1]
@@ -1112,35 +1149,35 @@ func (p *Program) Run(frame []byte, globals map[string]uintptr) {
 			if c.zf {
 				next = p.label(it)
 			}
-		case "JLT":
+		case "JLT", "JL", "JNGE":
 			if c.lt {
 				next = p.label(it)
 			}
-		case "JGE":
+		case "JGE", "JNL":
 			if !c.lt {
 				next = p.label(it)
 			}
-		case "JGT":
+		case "JGT", "JG":
 			if !c.lt && !c.zf {
 				next = p.label(it)
 			}
-		case "JLE":
+		case "JLE", "JNG":
 			if c.lt || c.zf {
 				next = p.label(it)
 			}
-		case "JCS", "JLO":
+		case "JCS", "JLO", "JC", "JB":
 			if c.cf {
 				next = p.label(it)
 			}
-		case "JCC", "JHS":
+		case "JCC", "JHS", "JNC", "JAE":
 			if !c.cf {
 				next = p.label(it)
 			}
-		case "JHI":
+		case "JHI", "JA":
 			if !c.cf && !c.zf {
 				next = p.label(it)
 			}
-		case "JLS":
+		case "JLS", "JBE":
 			if c.cf || c.zf {
 				next = p.label(it)
 			}
